@@ -129,6 +129,7 @@ class GatedObserver:
         self.inotify_fd = None
         self.extra_watches = extra_watches
         self.extra_events = {}
+        self.ino_order = {}      # st_ino -> creation index (maintained by the driver of the history)
 
     # ------------------------------------------------------------------ patching
     def start(self):
@@ -196,12 +197,27 @@ class GatedObserver:
 
         walk_calls = [0]
 
+        def ordered_walk(top, *a, **kw):
+            """os.walk with every listing sorted by creation order of the entries (the order of the model's
+            file-system list), so that walk order is deterministic and the same on both sides."""
+            def key(root):
+                def k(n):
+                    try:
+                        return me.ino_order.get(os.lstat(os.path.join(root, n)).st_ino, 1 << 60)
+                    except OSError:
+                        return 1 << 61
+                return k
+            for root, ds, fs in os.walk(top, *a, **kw):
+                ds.sort(key=key(root))
+                fs.sort(key=key(root))
+                yield root, ds, fs
+
         def os_walk(top, *a, **kw):
             n = walk_calls[0]
             walk_calls[0] += 1
             if n in me.walk_faults:
                 raise OSError(me.walk_faults[n], os.strerror(me.walk_faults[n]), top)
-            return os.walk(top, *a, **kw)
+            return ordered_walk(top, *a, **kw)
 
         orig_read_event = inotify_buffer.InotifyBuffer.read_event
 
@@ -216,6 +232,9 @@ class GatedObserver:
         inotify_c.inotify_add_watch = add_watch
         inotify_c.select = _Proxy(_select, poll=Poll)
         inotify_c.os = _Proxy(os, read=os_read, walk=os_walk)
+        from watchdog import events as _events
+        self._saved["events_os"] = _events.os
+        _events.os = _Proxy(os, walk=ordered_walk)
         delayed_queue.time = self.vclock
         inotify_buffer.InotifyBuffer.read_event = read_event
         threading.excepthook = hook
@@ -343,6 +362,8 @@ class GatedObserver:
             self.observer.join(timeout=10)
         finally:
             inotify_c.os = self._saved["os"]
+            from watchdog import events as _events
+            _events.os = self._saved["events_os"]
             inotify_c.select = self._saved["select"]
             inotify_c.inotify_add_watch = self._saved["add"]
             inotify_c.inotify_init = self._saved["init"]
